@@ -58,6 +58,12 @@ CLAIMED = {
          'data exists; SFC_UPDATE_HEADER_NOW and the auto-update tail of all write wrappers call write_header (TRUE) after the position/frame-count updates; header writers never read the '
          'positions; the SDS header writer restores the codec counters around its temporary block flush. That the image at a crash point parses to the right prefix is not decided.',
          'save/restore PAIR (must-pass) rule over clang CFG with error-exit and guard-edge pruning; sibling required facts'),
+ 'C06': ('DESIGN.md §4 C06',
+         'The sf_seek decision table (whence x open mode x offset class, 96 classes, extracted by partial evaluation) equals the documented one; the codec seek is reached only after the '
+         'seekable and range tests; every -1 return of sf_seek and of all seek-slot functions has an error recorded and no error code is returned as a position; block-addressed codec seeks '
+         'use quotient/remainder by the same block length, the block byte size for the file offset, and set counter -> decode -> in-block position in that order. '
+         'Sample-sequence equality under arbitrary read partitions is not decided.',
+         'partial evaluation decision table vs documented oracle; must-precede path rules; sibling template facts'),
 }
 REASONS = {}
 DEFAULT_REASON = 'check not built yet (work in progress); see DESIGN.md'
